@@ -560,7 +560,7 @@ QUEEN = {
             }
         }
     }""" % {'P': QP},
-    'expect': {'loops': [], 'returns': 0},
+    'expect': {'loops': []},
 }
 GP = 'board, row as int, col as int'
 GET_MOVES = {
@@ -586,7 +586,7 @@ GET_MOVES = {
             assert(v[i] == t);
         }
     }""" % {'P': GP},
-    'expect': {'loops': [], 'returns': 0},
+    'expect': {'loops': []},
 }
 
 P = ('C01', 'C02', 'C05', 'C13')
@@ -600,7 +600,7 @@ def build(g):
     RK = {'requires': ['wf(board.board)', 'on_board(row as int, col as int)'],
           'ensures': A_ENS('slider_target(board.board, piece.color, row as int, col as int, %s, move_generation_mode, rook_dirs(), 4)'),
           'body_start': 'let ghost row_0 = row as int; let ghost col_0 = col as int;',
-          'loops': {0: o, 1: i}, 'expect': {'loops': ['for', 'while'], 'returns': 0}}
+          'loops': {0: o, 1: i}, 'expect': {'loops': ['for', 'while']}}
     ob, ib = slider_ann('bishop_dirs()', 'bishop_moves')
     BK = dict(RK); BK['ensures'] = [e.replace('rook_dirs()', 'bishop_dirs()') for e in RK['ensures']]; BK['loops'] = {0: ob, 1: ib}
     g.add(SPEC_K, SPEC_SL)
